@@ -22,7 +22,7 @@ def rebuild(st):
     files.update(st.get("extra_files", {}))
     pub_fns = {}
     for it in sp.program.items:
-        if it.kind == "fn" and (it.name in sp.pub or it.name == "main"):
+        if it.kind == "fn" and (it.name in sp.pub or it.name == "main") and not it.body.rstrip().endswith(";"):
             m = sp.assign[it.name]
             new = sp.renames.get(m, {}).get(it.name, it.name)
             pub_fns.setdefault(sp.files[m], set()).add(new)
